@@ -661,7 +661,7 @@ theorem dryT_real_dirs (env : PEnv) (orc : EvalOracles) (confOk : Bool) (conf : 
   obtain ⟨_, hq, hsame⟩ := World.wpS_sound plan (wpS_and h1 h2) hp.budget
   intro D hD
   rw [← hsame D]
-  exact (hq he).2 D hD
+  exact (hq he).2.1 D hD
 
 /-- **If the real run ends with exit status 0, so does the dry run** (fault-free plan, maildir mode, rules
 without discard, no message visited twice). -/
